@@ -399,12 +399,14 @@ func (m *locker) WithContext(src context.Context, name string) (context.Context,
 			return nil, nil, ErrLockerClosed
 		}
 		ctx, cancel := context.WithCancel(src)
-		if cancel, err := m.try(ctx, cancel, name, g, false); err == nil {
+		cancel, err := m.try(ctx, cancel, name, g, false)
+		if err == nil {
 			return ctx, cancel, nil
 		}
 		cancel()
 		var timeout <-chan time.Time
-		if m.nocsc {
+		if m.nocsc || !errors.Is(err, ErrNotLocked) {
+			// no key was seen held by others, so no invalidation is bound to come: try again later
 			timeout = time.After(m.timeout)
 		}
 		select {
